@@ -652,6 +652,9 @@ class Evaluator:
         leaves the block normally (environment updated in place; branches merge through ite)."""
         outs: List[Outcome] = []
         live = cond
+        if any(isinstance(x, ast.For) and x.orelse for x in stmts):
+            from .normalize import search_loop_form
+            stmts = search_loop_form(list(stmts))
         for i, st in enumerate(stmts):
             if live == FALSE:
                 break
@@ -1765,11 +1768,25 @@ class Evaluator:
         pos = [p.arg for p in list(a.posonlyargs) + list(a.args)]
         if skip_self and pos:
             pos = pos[1:]
+        passed_on = None
+        stars = [v for k, v in kwargs if k == "**"]
+        if len(stars) == 1 and a.kwarg is not None and not any(x[0] == "star" for x in args):
+            # ``f(x, y, **kw)`` into ``def f(x, y, /, **kwargs)``: when every parameter that could be named is given explicitly, the
+            # whole of ``kw`` arrives in ``kwargs``
+            named = [p.arg for p in list(a.args) + list(a.kwonlyargs)]
+            if skip_self and not a.posonlyargs and named:
+                named = named[1:]
+            given = set(pos[:len(args)]) | {k for k, _ in kwargs if k != "**"}
+            if all(n in given for n in named):
+                passed_on = stars[0]
+                kwargs = [(k, v) for k, v in kwargs if k != "**"]
         if any(x[0] == "star" for x in args) or any(k == "**" for k, _ in kwargs):
             return None
         if len(args) > len(pos) and a.vararg is None:
             return None
         bound = dict(zip(pos, args))
+        if passed_on is not None:
+            bound[a.kwarg.arg] = passed_on
         names = set(pos) | {p.arg for p in a.kwonlyargs}
         for k, v in kwargs:
             if k not in names:
@@ -1793,7 +1810,8 @@ class Evaluator:
             dflt.update({p.arg: d for p, d in zip(a_.kwonlyargs, a_.kw_defaults) if d is not None})
             shown = {k: v for k, v in bound.items()
                      if not (k in dflt and isinstance(dflt[k], ast.Constant) and v == const(dflt[k].value))}
-            canon = ("call", fref, (), tuple(sorted(shown.items())))
+            through = shown.pop(a_.kwarg.arg, None) if a_.kwarg is not None else None
+            canon = ("call", fref, (), tuple(sorted(shown.items())) + ((("**", through),) if through is not None else ()))
         else:
             canon = ("call", fref, tuple(args), tuple(kwargs))
         if ((self.inline_methods or is_private_helper(f) or (self._via_callable and self._single_ref(f))) and bound is not None and fr.depth < self.max_depth and f.qualname not in self.opaque
